@@ -66,6 +66,12 @@ def build(case):
         key = 'e' if 'e' in s.data else 'y'
         if kind in models.REAL or 'e' in s.data:
             s.data[key] = (s.data[key] * case['level']).astype(s.data[key].dtype)
+    if case.get('norms') == 'subunit' and kind not in models.REAL:
+        # directional observations that are almost, but not exactly, normalised (lengths 0.55 .. 1): whoever skips the normalisation
+        # "because predict normalises anyway" still gets moderate numbers - no clipping or flooring hides it
+        yy = s.data['y']
+        nrm = np.linalg.norm(yy, axis=-1, keepdims=True)
+        s.data['y'] = (yy / np.where(nrm > 0, nrm, 1.0) * np.random.default_rng([*case['rs'], 31]).uniform(0.55, 1.0, size=nrm.shape)).astype(yy.dtype)
     if case.get('e_dtype') == 'f32' and 'e' in s.data:
         s.data['e'] = s.data['e'].astype(np.float32)       # mixed precision: double-precision STFT with single-precision network embeddings
     relayout(s.data, case.get('layout', 'c'))
